@@ -125,8 +125,18 @@ func (e *specEnv) lookup(name string) (Term, bool) {
 		// package-level names only
 		return e.lookupPkg(name)
 	}
-	// results of this unit
-	if x.topFrame != nil {
+	// results of this unit (a local variable that happens to be called "result" takes precedence over the alias)
+	localShadows := false
+	if name == "result" && !e.paramOld {
+		if obj := x.lookupLocal(name, e.scopePos); obj != nil {
+			if v, ok := obj.(*types.Var); ok && !x.isPkgLevel(v) {
+				if _, bound := e.cur.vars[v]; bound {
+					localShadows = true
+				}
+			}
+		}
+	}
+	if x.topFrame != nil && !localShadows {
 		for i, obj := range x.topFrame.results {
 			if obj.Name() == name || (name == "result" && i == 0) || name == fmt.Sprintf("result%d", i) {
 				if t, ok := e.cur.vars[obj]; ok {
